@@ -299,30 +299,45 @@ def pool_run(items, nworkers, fn, outname, with_harness):
         t.join()
 
 
-def check_one(k, m):
-    w = worker_dir(k)
-    apply_mutant(k, m)
-    try:
-        rc, o = sh("cargo build --release --offline -q", cwd=f"{w}/harness", timeout=900)
-        if rc != 0:
-            return {"status": "harness-nobuild", "log": o[-2000:]}
-        env = {"VERIF_SCRATCH": w, "VERIF_EVIDENCE_DIR": f"{w}/evidence", "VERIF_THREADS": os.environ.get("MUT_THREADS", "4"),
-               "VERIF_WALL_CAP_S": os.environ.get("MUT_WALL_CAP_S", "150")}
-        order = RELEVANT[m["file"]] + [c for c in ALL if c not in RELEVANT[m["file"]]]
-        ran = []
-        for c in order:
-            rc, o = sh(f"{w}/target/release/mc run {c} --tier quick", env=env, timeout=900, cwd=f"{w}/harness")
-            ran.append([c, rc])
-            if rc == 1:
-                keys = sorted({l[2:].split(":")[0] for l in o.splitlines() if l.startswith("# ")})
-                return {"status": "caught", "caught_by": c, "keys": keys[:8], "ran": ran}
-            if rc == 124:
-                return {"status": "caught-by-timeout", "caught_by": c, "ran": ran}
-            if rc != 0:
-                return {"status": "machinery", "caught_by": c, "ran": ran, "log": o[-1500:]}
-        return {"status": "MISSED", "ran": ran}
-    finally:
-        revert(k)
+def mutant_patch(m):
+    """Writes the mutant as a unified diff (so that tools/par_try.py can apply it) and returns its path."""
+    os.makedirs(f"{MUT}/patches", exist_ok=True)
+    path = f"{MUT}/patches/{m['id']}.diff"
+    if not os.path.exists(path):
+        src = open(f"{REPO}/src/{m['file']}").read().split('\n')
+        assert src[m['line'] - 1] == m['before'], m
+        new = list(src)
+        new[m['line'] - 1] = m['after']
+        import difflib
+        d = difflib.unified_diff([l + '\n' for l in src], [l + '\n' for l in new], f"a/src/{m['file']}", f"b/src/{m['file']}", n=3)
+        txt = ''.join(d)
+        # the split on '\n' leaves a last empty element when the file ends with a newline
+        txt = txt.replace('\n\\ No newline at end of file', '')
+        open(path, 'w').write(txt)
+    return path
+
+
+def check_one_pt(w, m):
+    """One surviving mutant against the quick checks relevant to the mutated file (./check through
+    tools/par_try.py: scratch worktree, loomchk included for C10/C11)."""
+    import par_try
+    r = par_try.run_checks(w, mutant_patch(m), RELEVANT[m["file"]], True)
+    rec = dict(m)
+    if r["status"] != "ran":
+        rec.update({"status": r["status"], "log": r.get("log")})
+        return rec
+    caught = [c for c, v in r["checks"].items() if v["rc"] == 1]
+    odd = {c: v for c, v in r["checks"].items() if v["rc"] not in (0, 1)}
+    rec["ran"] = [[c, v["rc"]] for c, v in r["checks"].items()]
+    if caught:
+        rec.update({"status": "caught", "caught_by": caught[0], "keys": r["checks"][caught[0]]["keys"]})
+    elif odd:
+        rec.update({"status": "machinery", "caught_by": sorted(odd)[0], "log": list(odd.values())[0].get("log")})
+    else:
+        rec["status"] = "MISSED"
+    rec["id"] = m["id"]
+    rec["verdict"] = rec["status"] + " " + str(rec.get("caught_by", ""))
+    return rec
 
 
 def report():
@@ -355,8 +370,13 @@ def main():
         items = [m for m in load("all.jsonl") if not only or m["file"] in only]
         pool_run(items, n, screen_one, "screen.jsonl", False)
     elif cmd == "check":
-        items = [m for m in load("screen.jsonl") if m["status"] == "survivor" and (not only or m["file"] in only)]
-        pool_run(items, n, check_one, "check.jsonl", True)
+        sys.path.insert(0, os.path.dirname(os.path.abspath(__file__)))
+        import par_try
+        par_try.PT = MUT
+        done = {r["id"] for r in load("check.jsonl")}
+        items = [m for m in load("screen.jsonl") if m["status"] == "survivor" and (not only or m["file"] in only) and m["id"] not in done]
+        print(len(items), "survivors to check", flush=True)
+        par_try.pool(items, n, check_one_pt, "check.jsonl")
     elif cmd == "report":
         report()
     elif cmd == "clean":
